@@ -3,7 +3,7 @@ import os
 
 from hypothesis import strategies as st
 
-from .. import gen, gen_text, refgrammar, runner, sut
+from .. import common, gen, gen_text, refgrammar, runner, sut
 from .. import model as M
 
 ID = "C06"
@@ -83,6 +83,12 @@ def judge(case):
             try:
                 rb[1].recompile(text)
                 viol.append("recompile() accepted text outside the grammar without raising (evaluator held %r) | %r" % (base, text))
+            except Exception:
+                pass
+            try:
+                # ... and handed over as a temporary that sits at the address of the collected previous text (same size)
+                common.recycled_recompile(rb[1], base, text)
+                viol.append("recompile() accepted text outside the grammar without raising when the text object's id was recycled (evaluator held %r) | %r" % (base, text))
             except Exception:
                 pass
     if "/*" in text:
@@ -275,6 +281,23 @@ def stray_token_sweep():
                     yield {"text": " ".join(toks[:i] + [s_] + toks[i + 1:]), "kinds": ["stray-token:replace"], "level": "stray-token", "base": None}
 
 
+def keyword_case_sweep():
+    """keywords are case-sensitive: DEF, Salt, If, IN, Not In, RETURN, Weighted ... (and letters that only case-fold to a keyword's:
+    long s, dotless i, Kelvin sign) are identifiers or illegal characters, wherever they stand"""
+    fold = {"s": "\u017f", "i": "\u0131", "k": "\u212a"}
+    for base in SWEEP_BASES:
+        toks = refgrammar.lex(base)
+        for i, (ty, tx) in enumerate(toks):
+            if ty in ("ID", "STRING", "INT", "FLOAT") or not tx[0].isalpha():
+                continue
+            variants = {tx.upper(), tx.capitalize(), tx.title(), tx.swapcase(), tx[0] + tx[1:].upper(), tx[:-1] + tx[-1].upper()}
+            for ch, rep in fold.items():
+                if ch in tx:
+                    variants.add(tx.replace(ch, rep, 1))
+            for v in sorted(variants - {tx}):
+                yield {"text": " ".join([t for _, t in toks[:i]] + [v] + [t for _, t in toks[i + 1:]]), "kinds": ["keyword-case"], "level": "keyword-case", "base": None}
+
+
 def selftest():
     refgrammar.selftest()
     for t in FIXED:
@@ -290,6 +313,9 @@ def run(ctx, rec):
         if rec.violations:
             return
         runner.direct_run(ctx, rec, "stray-token-sweep", stray_token_sweep(), judge)
+        if rec.violations:
+            return
+        runner.direct_run(ctx, rec, "keyword-case-sweep", keyword_case_sweep(), judge)
         if rec.violations:
             return
     runner.hyp_run(ctx, rec, "token-mutations", token_cases(), judge, ctx.n(1000, 8000))
